@@ -723,6 +723,19 @@ func (e *Env) evalCall(n *ECall) (Val, error) {
 		}
 		return f.zeroVal(t), nil
 	}
+	if id.Name == "atlock" && len(n.Args) == 1 {
+		// the value of an expression right after the function's (last) lock acquisition:
+		// the reference point for postconditions over lock-guarded state, which other
+		// goroutines may change until the lock is taken
+		if f.lastLockHeap == nil {
+			return Val{}, fmt.Errorf("atlock(): the function acquires no lock of a type with guarded fields")
+		}
+		o := e.with(f.lastLockHeap)
+		if e.entryVars != nil {
+			o.vars = e.entryVars
+		}
+		return o.eval(n.Args[0])
+	}
 	if id.Name == "held" && len(n.Args) == 1 {
 		a, err := e.evalAddr(n.Args[0])
 		if err != nil {
